@@ -1,4 +1,4 @@
-import WfProofs.HandlerStoreRetention
+import WfProofs.HandlerStoreHistory
 /-!
 # C24 — handler stores answer queries consistently and retain the newest completions
 
@@ -269,3 +269,221 @@ theorem C24_completed_stamp (mx : Option Nat) (ops : List Op) (r : Handler) :
 example : let g := (Ghost.init (.mem (some 2))).run [.update { handlerId := 1, workflowName := 5, status := 0 },
       .update { handlerId := 1, workflowName := 5, status := 2 }, .update { handlerId := 1, workflowName := 5, status := 2 }];
     (g.s.rows.map (fun r => (r.handlerId, r.terminal)), g.stamp 1) = ([(1, true)], 1) := by decide
+
+/-! ## whole histories
+
+The theorems above describe one operation on an arbitrary reachable store.  The ones below describe
+the table after a whole history in terms of the operations of that history.  "The store before
+operation `k`" is `(Store.init b).run (ops.take k)`; the handler an operation writes is
+`Store.written` (the argument of `update`; for `update_handler_status` the updated copy of the first
+handler with that run id, nothing when there is none). -/
+
+/-- **every row is the latest write of its id** (every store, every history): a handler in the
+table was written by some operation `i` of the history, has been in the table after every later
+operation, and no later operation wrote its id.  Nothing is ever in a table that was not put there,
+and an older version of a handler never comes back. -/
+theorem C24_rows_are_last_writes (b : Backend) (ops : List Op) (r : Handler) :
+    r ∈ ((Store.init b).run ops).rows →
+    ∃ i op, ops[i]? = some op ∧ ((Store.init b).run (ops.take i)).written op = some r ∧
+      (∀ k, i < k → k ≤ ops.length → r ∈ ((Store.init b).run (ops.take k)).rows) ∧
+      ∀ j op', i < j → ops[j]? = some op' →
+        ∀ h, ((Store.init b).run (ops.take j)).written op' = some h → h.handlerId ≠ r.handlerId :=
+  fun hr => rows_lastWrite b ops r hr
+
+example : let ops := [Op.update { handlerId := 1, workflowName := 5, status := 0, runId := some 9 }, .status { runId := 9, status := some 1, now := 4 },
+      .update { handlerId := 2, workflowName := 5, status := 0 }];
+    ((Store.init .sql).run ops).rows.map (fun r => (r.handlerId, r.status, r.completedAt)) = [(1, 1, some 4), (2, 0, none)] ∧
+    ((Store.init .sql).run (ops.take 1)).written (.status { runId := 9, status := some 1, now := 4 }) =
+      some { handlerId := 1, workflowName := 5, status := 1, runId := some 9, updatedAt := some 4, completedAt := some 4 } := by decide
+
+/-- **all non-terminal handlers are kept, over whole histories** (and everything, in the SQLite and
+the unbounded store): a handler written by operation `i` is in the table at the end of the history
+whenever no later operation writes its id or is a delete whose filters it passes — provided the
+store is SQLite, or unbounded, or the handler is non-terminal.  No number of completions of other
+handlers, in any order, ever removes a running handler. -/
+theorem C24_write_persists (b : Backend) (ops : List Op) (i : Nat) (op : Op) (r : Handler) :
+    ops[i]? = some op → ((Store.init b).run (ops.take i)).written op = some r →
+    (b = .sql ∨ b = .mem none ∨ r.terminal = false) →
+    (∀ j op', i < j → ops[j]? = some op' →
+      (∀ h, ((Store.init b).run (ops.take j)).written op' = some h → h.handlerId ≠ r.handlerId) ∧
+      (∀ q, op' = .delete q → ¬ Matches r q)) →
+    r ∈ ((Store.init b).run ops).rows :=
+  fun hget hwr hk hu => write_persists b ops i op r hget hwr hk hu
+
+example : let ops := [Op.update { handlerId := 1, workflowName := 5, status := 0 }, .update { handlerId := 2, workflowName := 5, status := 1 },
+      .update { handlerId := 3, workflowName := 5, status := 2 }, .delete { statusIn := some [1, 2, 3] }];
+    (((Store.init (.mem (some 1))).run ops).rows.map (·.handlerId) = [1]) ∧
+    ¬ Matches { handlerId := 1, workflowName := 5, status := 0 } { statusIn := some [1, 2, 3] } := by
+  refine ⟨by decide, ?_⟩
+  rw [← matchesB_iff]; decide
+
+/-- **the table as a function of the history** (refinement to "latest undisturbed write"): with
+every delete carrying at least one filter, a handler `r` that nothing can evict (any handler in the
+SQLite or the unbounded store, a non-terminal one in a bounded store) is in the table after `ops`
+**iff** some operation wrote exactly `r` and no later operation wrote its id or was a delete whose
+filters `r` passes.  Together with `C24_query_spec` this fixes every query answer from the history
+alone. -/
+theorem C24_table_from_history (b : Backend) (ops : List Op) (hf : ∀ q, Op.delete q ∈ ops → q.hasFilter = true) (r : Handler)
+    (hk : b = .sql ∨ b = .mem none ∨ r.terminal = false) :
+    r ∈ ((Store.init b).run ops).rows ↔
+    ∃ i op, ops[i]? = some op ∧ ((Store.init b).run (ops.take i)).written op = some r ∧
+      ∀ j op', i < j → ops[j]? = some op' →
+        (∀ h, ((Store.init b).run (ops.take j)).written op' = some h → h.handlerId ≠ r.handlerId) ∧
+        (∀ q, op' = .delete q → ¬ Matches r q) := by
+  constructor
+  · intro hr
+    obtain ⟨i, op, hget, hwr, hstay, hno⟩ := rows_lastWrite b ops r hr
+    exact ⟨i, op, hget, hwr, LastWrite_undisturbed b ops hf r i hstay hno⟩
+  · rintro ⟨i, op, hget, hwr, hu⟩
+    exact write_persists b ops i op r hget hwr hk hu
+
+example : ∀ q, Op.delete q ∈ [Op.update { handlerId := 1, workflowName := 5, status := 0 }, .delete { handlerIdIn := some [2] }] →
+    q.hasFilter = true := by
+  intro q hq
+  simp only [List.mem_cons, List.not_mem_nil, or_false, reduceCtorEq, false_or, Op.delete.injEq] at hq
+  subst hq; rfl
+
+/-- **`_terminal_queue` in every reachable in-memory store** (any `max_completed`, any history): it
+has no repetitions, holds exactly the ids of the terminal handlers in the table (so its length is
+their number), is ordered by the time each became terminal, and every entry's lookup finds a
+terminal row — the two `continue` branches of `_evict_oldest_completed` ("already removed", "stale
+entry") are never taken, every popped id evicts one handler. -/
+theorem C24_terminal_queue_exact (mx : Option Nat) (ops : List Op) :
+    let g := (Ghost.init (.mem mx)).run ops
+    g.s.queue.Nodup ∧
+    (∀ id, id ∈ g.s.queue ↔ ∃ r ∈ g.s.rows, r.handlerId = id ∧ r.terminal = true) ∧
+    g.s.queue.length = countTerminal g.s.rows ∧
+    g.s.queue.Pairwise (fun a b => g.stamp a < g.stamp b) ∧
+    (∀ id ∈ g.s.queue, ∃ r, g.s.rows.find? (·.handlerId == id) = some r ∧ r.terminal = true) := by
+  intro g
+  have hg : GInv g := GInv_run _ ops (GInv_init _)
+  have hb : g.s.backend = .mem mx := by rw [Ghost.run_s, run_backend]; rfl
+  have hq := hg.wf.mem _ hb
+  refine ⟨hq.queue_nodup, hq.queue_iff, hq.count.symm, (hg.ord _ hb).1, ?_⟩
+  intro id hid
+  obtain ⟨r, hr, hrid, hrt⟩ := (hq.queue_iff id).mp hid
+  exact ⟨r, by rw [← hrid]; exact find_of_mem _ hq.ids_nodup r hr, hrt⟩
+
+example : let g := (Ghost.init (.mem (some 2))).run [.update { handlerId := 1, workflowName := 5, status := 0 },
+      .update { handlerId := 2, workflowName := 5, status := 1 }, .update { handlerId := 1, workflowName := 5, status := 3 },
+      .update { handlerId := 2, workflowName := 5, status := 2 }, .update { handlerId := 3, workflowName := 5, status := 1 }];
+    (g.s.queue, g.s.rows.map (·.handlerId), g.stamp 1, g.stamp 3) = ([1, 3], [1, 3], 2, 4) := by decide
+
+/-- **evicted = older than everything retained at any later time**: if operation `i` evicts the
+terminal handler `e` (it is in the upserted table and not in the table afterwards), then after every
+later operation of the history every terminal handler in the table became terminal later than `e`
+had when it was evicted.  So over a whole history the retained completions are always newer than
+every completion evicted so far: an old completion never outlives a newer one. -/
+theorem C24_evicted_stay_older (m : Nat) (ops : List Op) (i n : Nat) (op : Op) (h e : Handler) :
+    let gi := (Ghost.init (.mem (some m))).run (ops.take i)
+    let gn := (Ghost.init (.mem (some m))).run (ops.take n)
+    ops[i]? = some op → gi.s.written op = some h →
+    e ∈ upsert gi.s.rows h → e.terminal = true → e ∉ (gi.step op).s.rows →
+    i < n → n ≤ ops.length →
+    ∀ k ∈ gn.s.rows, k.terminal = true → (gi.step op).stamp e.handlerId < gn.stamp k.handlerId := by
+  intro gi gn hget hwr he het hgone hin hnl
+  have hgi : GInv gi := GInv_run _ _ (GInv_init _)
+  have hb : gi.s.backend = .mem (some m) := by rw [Ghost.run_s, run_backend]; rfl
+  have hb' : (gi.step op).s.backend = .mem (some m) := by
+    have : (gi.step op).s.backend = gi.s.backend := step_backend gi.s op
+    rw [this]; exact hb
+  obtain ⟨rest, hsplit⟩ : ∃ rest, ops.take n = (ops.take i ++ [op]) ++ rest := by
+    refine ⟨(ops.take n).drop (i + 1), ?_⟩
+    have h1 : ops.take (i + 1) = ops.take i ++ [op] := by rw [List.take_add_one, hget]; rfl
+    have h2 : (ops.take n).take (i + 1) = ops.take (i + 1) := by
+      rw [List.take_take]; congr 1; omega
+    rw [← h1, ← h2, List.take_append_drop]
+  have hgn : gn = (gi.step op).run rest := by
+    show (Ghost.init (.mem (some m))).run (ops.take n) = _
+    rw [hsplit, Ghost.run_append, Ghost.run_snoc]
+  rw [hgn]
+  apply AllNewer_run _ (gi.step op) (GInv_step gi op hgi) (some m) hb' _ (stamp_upsert_lt gi op hgi _ hb h e hwr he het)
+  intro k hk hkt
+  exact (retention_update gi hgi m hb op h hwr).2.2.2 k hk hkt e he het hgone
+
+example : let ops := [Op.update { handlerId := 1, workflowName := 5, status := 1 }, .update { handlerId := 2, workflowName := 5, status := 1 },
+      .update { handlerId := 3, workflowName := 5, status := 0 }, .update { handlerId := 3, workflowName := 5, status := 2 }];
+    let gi := (Ghost.init (.mem (some 1))).run (ops.take 1);
+    let gn := (Ghost.init (.mem (some 1))).run (ops.take 4);
+    gi.s.written (.update { handlerId := 2, workflowName := 5, status := 1 }) = some { handlerId := 2, workflowName := 5, status := 1 } ∧
+    (upsert gi.s.rows { handlerId := 2, workflowName := 5, status := 1 }).map (·.handlerId) = [1, 2] ∧
+    (gi.step (.update { handlerId := 2, workflowName := 5, status := 1 })).s.rows.map (·.handlerId) = [2] ∧
+    (gn.s.rows.map (·.handlerId), (gi.step (.update { handlerId := 2, workflowName := 5, status := 1 })).stamp 1, gn.stamp 3) = ([3], 0, 3) := by
+  decide
+
+/-- **bounded = unbounded minus forgotten completions** (histories of upserts, queries and deletes):
+after the same history, every handler of the store with `max_completed = m` is, unchanged, in the
+store with `max_completed = None`; every non-terminal handler of the unbounded store is in the
+bounded one; hence every query of the bounded store answers a part of what the unbounded store (and
+so, by `C24_backends_agree_runs`, the SQLite store) answers, lacking only terminal handlers. -/
+theorem C24_bounded_within_unbounded (m : Nat) (ops : List Op) (hns : ∀ op ∈ ops, op.isStatus = false) :
+    let B := (Store.init (.mem (some m))).run ops
+    let U := (Store.init (.mem none)).run ops
+    (∀ r ∈ B.rows, r ∈ U.rows) ∧ (∀ r ∈ U.rows, r.terminal = false → r ∈ B.rows) ∧
+    (∀ q, ∀ r ∈ B.query q, r ∈ U.query q) ∧
+    (∀ q, ∀ r ∈ U.query q, r ∉ B.query q → r.terminal = true) := by
+  intro B U
+  have hw : Within B U := Within_run m ops _ _ (Wf_init _) (Wf_init _) rfl rfl
+    ⟨fun r hr => by simp [Store.init] at hr, fun r hr => by simp [Store.init] at hr⟩ hns
+  refine ⟨hw.sub, hw.live, ?_, ?_⟩
+  · intro q r hr
+    rw [query_eq, List.mem_filter] at hr ⊢
+    exact ⟨hw.sub r hr.1, hr.2⟩
+  · intro q r hr hnr
+    rw [query_eq, List.mem_filter] at hr hnr
+    cases ht : r.terminal with
+    | true => rfl
+    | false => exact absurd ⟨hw.live r hr.1 ht, hr.2⟩ hnr
+
+/-- why `C24_bounded_within_unbounded` excludes status updates: `update_handler_status` for the run
+of an evicted handler finds nothing in the bounded store (and does nothing) but revives the handler
+in the unbounded one. -/
+example : let ops := [Op.update { handlerId := 1, workflowName := 5, status := 1, runId := some 9 },
+      .update { handlerId := 2, workflowName := 5, status := 1, runId := some 8 }, .status { runId := 9, status := some 0, now := 3 }];
+    ((Store.init (.mem (some 1))).run ops).rows.map (fun r => (r.handlerId, r.status)) = [(2, 1)] ∧
+    ((Store.init (.mem none)).run ops).rows.map (fun r => (r.handlerId, r.status)) = [(1, 0), (2, 1)] := by decide
+
+example : ∀ op ∈ [Op.update { handlerId := 1, workflowName := 5, status := 1 }, .delete { isIdle := some false }, .query {}],
+    op.isStatus = false := by decide
+
+/-! ## the in-memory store's own code -/
+
+/-- What `MemoryWorkflowStore` says today (regenerated on every run, names of parameters and locals
+abstracted): the constructor's default bound and its guard, `query` as the filtered listing of the
+dict, the statement shapes of `update` (store; if terminal: enqueue the id unless queued, evict;
+else de-queue), `delete` (collect the matching ids; per id remove the handler and de-queue; return
+their number) and `_evict_oldest_completed` (no bound: return; while the queue is longer than the
+bound: pop the oldest id, skip a missing or non-terminal handler, remove the handler and its
+per-run data). `Store.update`, `Store.delete` and `evict` of the model are these shapes. -/
+theorem C24_memory_store_shape :
+    memMaxCompletedDefault = some 1000 ∧ memNegativeMaxRaises = true ∧ memQueryIsFilteredListing = true ∧
+    memUpdateShape = ["store", "if-terminal", "enqueue-if-absent", "evict", "else", "dequeue"] ∧
+    memDeleteShape = ["collect-matching", "del-handler", "dequeue", "count"] ∧
+    memEvictShape = ["unbounded-returns", "while-len>max", "pop-oldest", "skip-missing", "skip-nonterminal", "remove-handler",
+      "drop-run-data"] ∧
+    memEvictRunTables = ["events", "state_stores", "ticks"] := by
+  refine ⟨rfl, rfl, rfl, rfl, rfl, rfl, rfl⟩
+
+/-- **the constructor**: a negative `max_completed` is refused (and only that), any other value is
+the bound of the store, `None` means no bound, and the default store is the one with the bound the
+source gives — which therefore never holds more than that many terminal handlers, whatever happens. -/
+theorem C24_constructor (v : Int) :
+    (Store.initMem? (some v) = none ↔ v < 0) ∧
+    (0 ≤ v → Store.initMem? (some v) = some (Store.init (.mem (some v.toNat)))) ∧
+    Store.initMem? none = some (Store.init (.mem none)) ∧
+    Store.initMemDefault? = some (Store.init (.mem (some 1000))) ∧
+    ∀ s ops, Store.initMemDefault? = some s → countTerminal (s.run ops).rows ≤ 1000 := by
+  have hd : Store.initMemDefault? = some (Store.init (.mem (some 1000))) := rfl
+  refine ⟨?_, ?_, rfl, hd, ?_⟩
+  · unfold Store.initMem?
+    by_cases hv : v < 0 <;> simp [hv, memNegativeMaxRaises]
+  · intro hv
+    unfold Store.initMem?
+    have : ¬ v < 0 := by omega
+    simp [this]
+  · intro s ops hs
+    rw [hd] at hs
+    cases hs
+    exact C24_retention_bound 1000 ops
+
+example : Store.initMem? (some (-1)) = none ∧ (Store.initMem? (some 2)).map (·.backend) = some (.mem (some 2)) := ⟨rfl, rfl⟩
